@@ -44,6 +44,10 @@ impl UnaryParser {
                         TokenType::Variable(variable)     => SmartCalcAstType::PrefixUnary(operator, Rc::new(SmartCalcAstType::Variable(variable.clone()))),
                         TokenType::Percent(percent)       => SmartCalcAstType::PrefixUnary(operator, Rc::new(SmartCalcAstType::Item(Rc::new(PercentItem(*percent))))),
                         TokenType::Money(money, currency) => SmartCalcAstType::PrefixUnary(operator, Rc::new(SmartCalcAstType::PrefixUnary(operator, Rc::new(SmartCalcAstType::Item(Rc::new(MoneyItem(*money, currency.clone()))))))),
+                        TokenType::Operator('(') => {
+                            let ast = PrimativeParser::parse_parenthesis(parser)?;
+                            return Ok(SmartCalcAstType::PrefixUnary(operator, Rc::new(ast)));
+                        },
                         _ => {
                             parser.set_index(index_backup);
                             return Err(("Unary works with number", 0, 0));
